@@ -95,7 +95,11 @@ func (c *Ctx) enclosingFunc(pk *packages.Package, pos token.Pos) string {
 //	B  only writes into maps / delete (set or map building)
 //	C  order-insensitive reductions: constant returns, counters, constant flags
 func (c *Ctx) rangeBodyVerdict(pk *packages.Package, fd *ast.FuncDecl, rs *ast.RangeStmt) (ok bool, idiom, why string) {
-	info := pk.TypesInfo
+	return rangeBodyVerdictInfo(pk.TypesInfo, fd, rs)
+}
+
+// rangeBodyVerdictInfo: the same decision on any type-checked syntax tree (the generators' own, or the reconstructed emitted runtime).
+func rangeBodyVerdictInfo(info *types.Info, fd *ast.FuncDecl, rs *ast.RangeStmt) (ok bool, idiom, why string) {
 	var appended []types.Object
 	bad := ""
 	var visit func(stmts []ast.Stmt)
